@@ -620,3 +620,265 @@ def all_orders(xs, limit=None, rng=None):
     if limit and len(perms) > limit:
         perms = [perms[0], perms[-1]] + (rng or random).sample(perms[1:-1], limit - 2)
     return [list(p) for p in perms]
+
+
+# ------------------------------------------------------------------------------------------------
+# multi-task programs and generic calls (backward / mtl_backward) — impl, model, oracle
+# ------------------------------------------------------------------------------------------------
+def gen_mtl(rng: random.Random, overlap=False, nested=None, bound=2 ** 20):
+    """trunk (random program) -> 1..3 feature tensors -> 1..4 heads with 0..3 own parameters
+    (parameters shared between tasks in ~30 %).  Returns (prog, features, losses, tasks, shared)
+    with tasks = per-loss lists of own parameters (leaves), shared = leaves the features reach.
+    overlap=True lets a head use a trunk leaf directly (the default sets then overlap)."""
+    for _ in range(300):
+        p = _gen_program(rng, rng.randint(1, 3), rng.randint(2, 6), None)
+        if p is None:
+            continue
+        cand = [t for t in range(p.n()) if p.req[t] and not p.is_leaf[t] and numel(p.shapes[t]) >= 1]
+        if not cand:
+            continue
+        nf = rng.choice([1, 1, 2, 3])
+        feats = rng.sample(cand, min(nf, len(cand)))
+        is_nested = any(a != b and p.reach(a, b) for a in feats for b in feats)
+        if nested is not None and is_nested != nested:
+            continue
+        shared = [t for t in range(p.n()) if p.is_leaf[t] and p.req[t] and any(p.reach(f, t) for f in feats)]
+        trunk_leaves = [t for t in range(p.n()) if p.is_leaf[t] and p.req[t]]
+        nt = rng.randint(1, 4)
+        losses, tasks, pool = [], [], []
+        ok = True
+        for ti in range(nt):
+            params = []
+            terms = []
+            for f in rng.sample(feats, rng.randint(1, len(feats))):
+                sf = p.shapes[f]
+                c = rng.random()
+                if c < 0.55:
+                    if pool and rng.random() < 0.3 and any(p.shapes[q] == sf for q in pool):
+                        q = rng.choice([q for q in pool if p.shapes[q] == sf])
+                    else:
+                        q = p.leaf(sf, _rand_vals(rng, sf), True)
+                        pool.append(q)
+                    if q not in params:
+                        params.append(q)
+                    terms.append(p.op("sum", [p.op("mul", [f, q])]))
+                elif c < 0.8:
+                    terms.append(p.op("sum", [p.op("square", [f])]))
+                else:
+                    terms.append(p.op("scale", [p.op("sum", [f])], c=rng.choice([-2, 2, 3])))
+            if rng.random() < 0.3:
+                q = p.leaf((), _rand_vals(rng, ()), True)
+                pool.append(q)
+                params.append(q)
+                terms[0] = p.op("mul", [terms[0], q])
+            if rng.random() < 0.2:
+                q = p.leaf((2,), _rand_vals(rng, (2,)), True)
+                pool.append(q)
+                params.append(q)
+                terms.append(p.op("sum", [q]))          # additive parameter
+            if overlap and trunk_leaves and (ti == 0 or rng.random() < 0.4):
+                x = rng.choice(trunk_leaves)
+                terms.append(p.op("sum", [x]))
+            loss = terms[0]
+            for t in terms[1:]:
+                loss = p.op("add", [loss, t])
+            if p.shapes[loss] != ():
+                ok = False
+                break
+            losses.append(loss)
+            tasks.append(params)
+        if not ok or p.maxabs() >= bound:
+            continue
+        return p, feats, losses, tasks, shared
+    raise RuntimeError("no mtl program")
+
+
+def exact_vjp(prog, outs, cots, i):
+    """sum_o cot_o . D(o,i), exact; cots: list of flat lists"""
+    n = numel(prog.shapes[i])
+    acc = [Fraction(0)] * n
+    for o, c in zip(outs, cots):
+        D = D_nonleaf(prog, o, i)
+        for r, cr in enumerate(c):
+            if cr != 0:
+                for j in range(n):
+                    acc[j] += Fraction(cr) * D[r][j]
+    return acc
+
+
+def mtl_matrix(prog, feats, losses, shared):
+    M = []
+    for l in losses:
+        cots = [[Fraction(x) for x in D_nonleaf(prog, l, f)[0]] for f in feats]
+        row = []
+        for p_ in shared:
+            row.extend(exact_vjp(prog, feats, cots, p_))
+        M.append(row)
+    return M
+
+
+def call_D(prog, call):
+    """the derivative blocks the model needs for a call"""
+    Dp = {}
+    if call["entry"] == "backward":
+        for o in call["tensors"]:
+            for i in call["eff_inputs"]:
+                Dp[(o, i)] = D_nonleaf(prog, o, i)
+    else:
+        for l, ps in zip(call["losses"], call["eff_tasks"]):
+            for q in list(ps) + list(call["features"]):
+                Dp[(l, q)] = D_nonleaf(prog, l, q)
+        for f in call["features"]:
+            for p_ in call["eff_shared"]:
+                Dp[(f, p_)] = D_nonleaf(prog, f, p_)
+    return Dp
+
+
+def c_optlist(x, f):
+    return "None" if x is None else f"(Some {f(x)})"
+
+
+def c_listlist(ll):
+    return "[" + "; ".join(c_natlist(l) for l in ll) + "]"
+
+
+def model_call_expr(pname, call, store):
+    """Coq expression: the model's entry point applied to the call (result: res tdict * store)"""
+    A = c_agg(tuple(call["agg"]))
+    k = call["k"]
+    kk = "None" if k is None else f"(Some {k}%nat)"
+    rt = c_bool(call["retain"])
+    sig = call.get("sigma", "(fun l => l)")
+    if call["entry"] == "backward":
+        if call["inputs"] is None:
+            return f"backward_default QN {pname} {A} {sig} {c_natlist(call['tensors'])} {kk} {rt} {store}"
+        ordl = call.get("ord", list(dict.fromkeys(call["inputs"])))
+        return f"backward_model QN {pname} {A} {c_natlist(call['tensors'])} {c_natlist(ordl)} {kk} {rt} {store}"
+    tasks = c_optlist(call["tasks"], c_listlist)
+    shared = c_optlist(call["shared"], c_natlist)
+    return (f"mtl_backward_default QN {pname} {A} {sig} {c_natlist(call['losses'])} "
+            f"{c_natlist(call['features'])} {tasks} {shared} {kk} {rt} {store}")
+
+
+def mk_agg_obj(agg, dtype):
+    from torchjd.aggregation import Constant, Mean, Sum
+    if agg[0] == "constant":
+        return Constant(torch.tensor([float(w) for w in agg[1]], dtype=dtype))
+    if agg[0] == "sum":
+        return Sum()
+    if agg[0] == "mean":
+        return Mean()
+    raise KeyError(agg)
+
+
+def impl_call(ts, call, dtype, agg_obj=None):
+    """run the real entry point on already-built tensors; returns exception class name or None"""
+    from torchjd import backward, mtl_backward
+    A = agg_obj or mk_agg_obj(call["agg"], dtype)
+    try:
+        if call["entry"] == "backward":
+            tens = [ts[o] for o in call["tensors"]]
+            if call.get("single_tensor"):
+                tens = tens[0]
+            backward(tens, A,
+                     inputs=None if call["inputs"] is None else [ts[i] for i in call["inputs"]],
+                     retain_graph=call["retain"], parallel_chunk_size=call["k"])
+        else:
+            feats = [ts[f] for f in call["features"]]
+            if call.get("single_feature"):
+                feats = feats[0]
+            mtl_backward([ts[l] for l in call["losses"]], feats, A,
+                         tasks_params=None if call["tasks"] is None else [[ts[q] for q in ps] for ps in call["tasks"]],
+                         shared_params=None if call["shared"] is None else [ts[p_] for p_ in call["shared"]],
+                         retain_graph=call["retain"], parallel_chunk_size=call["k"])
+    except Exception as e:  # noqa: BLE001
+        return type(e).__name__
+    return None
+
+
+def snapshot_grads(ts, prog, exact=True):
+    out = {}
+    for t in range(prog.n()):
+        if prog.is_leaf[t]:
+            g = ts[t].grad
+            out[t] = None if g is None else (tuple(g.shape), [float(x) for x in g.reshape(-1).tolist()])
+    return out
+
+
+def set_old_grads(ts, prog, old, dtype):
+    for t, vals in old.items():
+        ts[int(t)].grad = torch.tensor([float(v) for v in vals], dtype=dtype).reshape(prog.shapes[int(t)])
+
+
+def oracle_call(prog, call, old):
+    """expected .grad of every leaf after an ACCEPTED call (Fractions), independent of Coq"""
+    exp = {}
+    for t in range(prog.n()):
+        if prog.is_leaf[t]:
+            o = old.get(str(t), old.get(t))
+            exp[t] = None if o is None else [Fraction(x) for x in o]
+
+    def add(t, vals):
+        exp[t] = [a + b for a, b in zip(exp[t], vals)] if exp[t] is not None else list(vals)
+    if call["entry"] == "backward":
+        ord_ = call["eff_inputs"]
+        if ord_:
+            J = []
+            for o in call["tensors"]:
+                blocks = [D_nonleaf(prog, o, i) for i in ord_]
+                for r in range(numel(prog.shapes[o])):
+                    J.append([x for b in blocks for x in b[r]])
+            v = exact_agg(tuple(call["agg"]), J)
+            off = 0
+            for i in ord_:
+                n = numel(prog.shapes[i])
+                add(i, v[off:off + n])
+                off += n
+    else:
+        for l, ps in zip(call["losses"], call["eff_tasks"]):
+            for q in ps:
+                add(q, [Fraction(x) for x in D_nonleaf(prog, l, q)[0]])
+        sh = call["eff_shared"]
+        if sh:
+            M = mtl_matrix(prog, call["features"], call["losses"], sh)
+            v = exact_agg(tuple(call["agg"]), M)
+            off = 0
+            for p_ in sh:
+                n = numel(prog.shapes[p_])
+                add(p_, v[off:off + n])
+                off += n
+    return exp
+
+
+def default_leaves(prog, tensors, excluded=()):
+    """oracle of the default parameter sets from the harness' own op DAG: requires-grad leaves
+    reachable from `tensors` along differentiable paths that do not pass through `excluded`"""
+    seen, st, res = set(), list(tensors), []
+    exc = set(excluded)
+    while st:
+        x = st.pop()
+        if x in seen or x in exc:
+            continue
+        seen.add(x)
+        if prog.is_leaf[x] and prog.req[x]:
+            res.append(x)
+        st.extend(prog.parents[x])
+    return sorted(res)
+
+
+def grads_match(impl, exp, tol=0.0):
+    for t, e in exp.items():
+        g = impl.get(t)
+        if (g is None) != (e is None):
+            return False, t
+        if g is None:
+            continue
+        if len(g[1]) != len(e):
+            return False, t
+        for a, b in zip(g[1], e):
+            if tol == 0.0:
+                if Fraction(a) != Fraction(b):
+                    return False, t
+            elif abs(float(a) - float(b)) > tol * max(1.0, abs(float(b))):
+                return False, t
+    return True, None
